@@ -6,11 +6,13 @@ import Pulsar.Proofs.Runtime
 namespace Pulsar
 
 /-- Sov equals protowire.SizeVarint for every value (in particular every uint64). -/
-theorem C15_sov_eq_protowire_size (x : Nat) : sov x = (varint x).length := sorry
+theorem C15_sov_eq_protowire_size (x : Nat) : sov x = (varint x).length :=
+  sov_eq_varint_length x
 
 /-- Soz equals the size of the zig-zag encoding for every 64-bit pattern. -/
 theorem C15_soz_eq (x : Nat) (hx : x < 18446744073709551616) :
-    soz x = (varint (zigzag64 x)).length := sorry
+    soz x = (varint (zigzag64 x)).length :=
+  soz_eq_varint_length x hx
 
 /-- EncodeVarint stores exactly the minimal varint ending at `off`, touches no other byte, returns
     `off - sov v`, and panics exactly when the varint does not fit before `off` inside the buffer. -/
@@ -18,17 +20,78 @@ theorem C15_encodeVarint_writes_minimal_varint (d : Bytes) (off v : Nat) :
     encodeVarint d off v =
       if sov v ≤ off ∧ off ≤ d.length
       then .ok (d.take (off - sov v) ++ varint v ++ d.drop off, ((off - sov v : Nat) : Int))
-      else .panic := sorry
+      else .panic :=
+  encodeVarint_spec d off v
 
 /-- Skip never panics, on any byte string. -/
-theorem C15_skip_no_panic (bs : Bytes) : skip bs ≠ .panic := sorry
+theorem C15_skip_no_panic (bs : Bytes) : skip bs ≠ .panic :=
+  skip_ne_panic bs
 
 /-- Skip always makes progress when it succeeds. -/
-theorem C15_skip_progress (bs : Bytes) (n : Nat) (h : skip bs = .ok n) : 0 < n := sorry
+theorem C15_skip_progress (bs : Bytes) (n : Nat) (h : skip bs = .ok n) : 0 < n :=
+  skip_progress bs n h
 
 /-- For every input whose first record protowire accepts, Skip returns precisely that record's length
     (whatever follows it). `bs.length < 2^63` holds of every Go slice. -/
 theorem C15_skip_len (bs : Bytes) (n : Nat) (hl : bs.length < 9223372036854775808)
-    (h : consumeField bs = .ok n) : skip bs = .ok n := sorry
+    (h : consumeField bs = .ok n) : skip bs = .ok n :=
+  skip_len_of_consumeField bs n hl h
+
+/-! ### Non-vacuity: the hypotheses of the conditional theorems are satisfiable. -/
+
+/-- varint record: field 1, wire type 0, value 150 (`08 96 01`). -/
+example : consumeField [0x08, 0x96, 0x01] = .ok 3 := by
+  simp [consumeField, consumeTag, consumeVarint, consumeVarintAux, consumeValue]
+example : skip [0x08, 0x96, 0x01] = .ok 3 := C15_skip_len _ _ (by decide) (by
+  simp [consumeField, consumeTag, consumeVarint, consumeVarintAux, consumeValue])
+/-- trailing bytes after the first record are ignored. -/
+example : consumeField [0x08, 0x96, 0x01, 0xff, 0xff] = .ok 3 := by
+  simp [consumeField, consumeTag, consumeVarint, consumeVarintAux, consumeValue]
+example : skip [0x08, 0x96, 0x01, 0xff, 0xff] = .ok 3 := C15_skip_len _ _ (by decide) (by
+  simp [consumeField, consumeTag, consumeVarint, consumeVarintAux, consumeValue])
+/-- length-delimited record: field 2, length 3. -/
+example : consumeField [0x12, 0x03, 0x61, 0x62, 0x63] = .ok 5 := by
+  simp [consumeField, consumeTag, consumeVarint, consumeVarintAux, consumeValue]
+example : skip [0x12, 0x03, 0x61, 0x62, 0x63] = .ok 5 := C15_skip_len _ _ (by decide) (by
+  simp [consumeField, consumeTag, consumeVarint, consumeVarintAux, consumeValue])
+/-- fixed32 record: field 1, wire type 5. -/
+example : consumeField [0x0d, 0x01, 0x02, 0x03, 0x04] = .ok 5 := by
+  simp [consumeField, consumeTag, consumeVarint, consumeVarintAux, consumeValue]
+example : skip [0x0d, 0x01, 0x02, 0x03, 0x04] = .ok 5 := C15_skip_len _ _ (by decide) (by
+  simp [consumeField, consumeTag, consumeVarint, consumeVarintAux, consumeValue])
+/-- group record: start-group 1, varint field 1 = 1, end-group 1. -/
+example : consumeField [0x0b, 0x08, 0x01, 0x0c] = .ok 4 := by
+  simp [consumeField, consumeTag, consumeVarint, consumeVarintAux, consumeValue, consumeGroup]
+example : skip [0x0b, 0x08, 0x01, 0x0c] = .ok 4 := C15_skip_len _ _ (by decide) (by
+  simp [consumeField, consumeTag, consumeVarint, consumeVarintAux, consumeValue, consumeGroup])
+/-- nested groups: start 1, start 2, end 2, end 1, followed by one junk byte. -/
+example : consumeField [0x0b, 0x13, 0x14, 0x0c, 0x07] = .ok 4 := by
+  simp [consumeField, consumeTag, consumeVarint, consumeVarintAux, consumeValue, consumeGroup]
+example : skip [0x0b, 0x13, 0x14, 0x0c, 0x07] = .ok 4 := C15_skip_len _ _ (by decide) (by
+  simp [consumeField, consumeTag, consumeVarint, consumeVarintAux, consumeValue, consumeGroup])
+/-- the hypothesis of `C15_skip_progress` is satisfiable. -/
+example : 0 < 4 :=
+  C15_skip_progress [0x0b, 0x08, 0x01, 0x0c] 4 (C15_skip_len _ _ (by decide) (by
+  simp [consumeField, consumeTag, consumeVarint, consumeVarintAux, consumeValue, consumeGroup]))
+/-- the hypothesis of `C15_soz_eq` is satisfiable at both ends (0 and -1 as int64). -/
+example : soz 0 = (varint (zigzag64 0)).length := C15_soz_eq _ (by decide)
+example : soz 18446744073709551615 = (varint (zigzag64 18446744073709551615)).length :=
+  C15_soz_eq _ (by decide)
+/-- both branches of `C15_encodeVarint_writes_minimal_varint` occur. -/
+example : encodeVarint [0, 0, 0] 3 300 = .ok ([0, 0xac, 0x02], 1) := by
+  rw [C15_encodeVarint_writes_minimal_varint, sov_300, varint_ge_128 (by omega),
+    varint_lt_128 (by omega)]
+  decide
+example : encodeVarint [0] 1 300 = .panic := by
+  rw [C15_encodeVarint_writes_minimal_varint, sov_300]; decide
+example : encodeVarint [0, 0] 3 300 = .panic := by
+  rw [C15_encodeVarint_writes_minimal_varint, sov_300]; decide
+
+#print axioms C15_sov_eq_protowire_size
+#print axioms C15_soz_eq
+#print axioms C15_encodeVarint_writes_minimal_varint
+#print axioms C15_skip_no_panic
+#print axioms C15_skip_progress
+#print axioms C15_skip_len
 
 end Pulsar
